@@ -337,38 +337,106 @@ def rule_order(facts, rep):
     w = facts.body("anstyle", S + "write_to")
     rep.fn(f["path"])
     rep.fn(w["path"])
-    fs = seq_of_emits(f["hir"], ())
-    ws = seq_of_emits(w["hir"], ())
-    want_f = [
-        (None, "<anstyle::effect::EffectsDisplay as core::fmt::Display>::fmt", ["[anstyle::effect::Effects::render]($self.effects)", "$f"], None),
-        ("self.fg", "<anstyle::color::DisplayBuffer as core::fmt::Display>::fmt", ["[anstyle::color::Color::render_fg]($fg)", "$f"], "fg"),
-        ("self.bg", "<anstyle::color::DisplayBuffer as core::fmt::Display>::fmt", ["[anstyle::color::Color::render_bg]($bg)", "$f"], "bg"),
-        ("self.underline", "<anstyle::color::DisplayBuffer as core::fmt::Display>::fmt", ["[anstyle::color::Color::render_underline]($underline)", "$f"], "underline"),
-        ("end", None, None, None),
-    ]
-    want_w = [
-        (None, "anstyle::effect::Effects::write_to", ["$self.effects", "$write"], None),
-        ("self.fg", "anstyle::color::Color::write_fg_to", ["$fg", "$write"], "fg"),
-        ("self.bg", "anstyle::color::Color::write_bg_to", ["$bg", "$write"], "bg"),
-        ("self.underline", "anstyle::color::Color::write_underline_to", ["$underline", "$write"], "underline"),
-        ("end", None, None, None),
-    ]
-    names = ["effects", "fg", "bg", "underline", "Ok"]
-    for i, nm in enumerate(names):
-        rep.check(i < len(fs) and fs[i] == want_f[i], "order", f["path"], f"{i}:{nm}",
-                  f"Display path step {i} must be {want_f[i]}, found {fs[i] if i < len(fs) else None}", loc(f))
-        rep.check(i < len(ws) and ws[i] == want_w[i], "order", w["path"], f"{i}:{nm}",
-                  f"io::Write path step {i} must be {want_w[i]}, found {ws[i] if i < len(ws) else None}", loc(w))
-    rep.check(len(fs) == 5 and len(ws) == 5, "order", S, "fmt_to-and-write_to-agree", "both paths emit effects, fg, bg, underline and nothing else", "")
+    # by abstract evaluation: for each of the 8 presence combinations of the three colours, and each place where an emit may fail,
+    # the emits performed (in order, with their arguments) and the result — `if let .. { x? }`, `match .. { Some => x, None => Ok }?`,
+    # a tail expression instead of `?; Ok(())` all evaluate alike
+    import abseval
+    C_ = "anstyle::color::Color::"
+    DISP = "<anstyle::color::DisplayBuffer as core::fmt::Display>::fmt"
+    EDISP = "<anstyle::effect::EffectsDisplay as core::fmt::Display>::fmt"
+    slots = (("fg", "render_fg", "write_fg_to"), ("bg", "render_bg", "write_bg_to"), ("underline", "render_underline", "write_underline_to"))
+
+    def sequences(body, sink):
+        """{(presence tuple, index of the failing emit or None): (emits, result)}"""
+        out = {}
+        for present in itertools.product((False, True), repeat=3):
+            def run(choices, present=present):
+                emits = []
+
+                def emit(name):
+                    def f_(a_):
+                        emits.append((name, list(a_)))
+                        return ("ok", ("unit",)) if ev.oracle(("emit-ok", len(emits) - 1)) else ("err", ("sym", f"error-{len(emits) - 1}"))
+                    return f_
+                atoms = {"anstyle::effect::Effects::render": lambda a_: ("rendered-effects", a_[0]), EDISP: emit("effects"),
+                         "anstyle::effect::Effects::write_to": emit("effects"), DISP: emit("colour")}
+                for slot, rn, wn in slots:
+                    atoms[C_ + rn] = (lambda a_, rn=rn: (rn, a_[0]))
+                    atoms[C_ + wn] = emit(wn)
+                ev = abseval.Evaluator(facts, "anstyle", atoms)
+                ev.choices = choices
+                env = abseval.Env()
+                env[body["params"][0]["name"]] = ("rec", {"fg": ("some", ("sym", "FG")) if present[0] else ("none",),
+                                                          "bg": ("some", ("sym", "BG")) if present[1] else ("none",),
+                                                          "underline": ("some", ("sym", "UL")) if present[2] else ("none",),
+                                                          "effects": ("sym", "EFF")})
+                env[body["params"][1]["name"]] = ("sym", sink)
+                try:
+                    r = ev.ev(body["hir"], env)
+                except abseval.Return as rt:
+                    r = rt.v
+                return emits, r
+            for choices, (emits, r) in abseval.explore(run):
+                failing = [k[1] for k, v in choices.items() if k[0] == "emit-ok" and not v]
+                out[(present, failing[0] if failing else None)] = (emits, r)
+        return out
+
+    def expected(present, sink, display):
+        seq = [("effects", [("rendered-effects", ("sym", "EFF")), ("sym", sink)] if display else [("sym", "EFF"), ("sym", sink)])]
+        for (slot, rn, wn), on, sym_ in zip(slots, present, ("FG", "BG", "UL")):
+            if on:
+                seq.append(("colour", [(rn, ("sym", sym_)), ("sym", sink)]) if display else (wn, [("sym", sym_), ("sym", sink)]))
+        return seq
+    n_cases = {}
+    for body, sink, display, label in ((f, "f", True, "Display"), (w, "write", False, "io::Write")):
+        bad = {}
+        try:
+            got = sequences(body, sink)
+        except Unrecognised as ex:
+            got, bad = {}, {"*": f"not evaluable: {ex}"}
+        n_cases[label] = len(got)
+        for present in itertools.product((False, True), repeat=3):
+            want = expected(present, sink, display)
+            cases = [(None, want, ("ok", ("unit",)))] + [(i, want[:i + 1], ("err", ("sym", f"error-{i}"))) for i in range(len(want))]
+            for failing, seq, res in cases:
+                g = got.get((present, failing))
+                if g is None or g[0] != seq or g[1] != res:
+                    step = min(len(seq) - 1, next((i for i, (x, y) in enumerate(zip(g[0] if g else [], seq)) if x != y), len(seq) - 1))
+                    nm = (["effects"] + [s_[0] for s_, on in zip(slots, present) if on])[step] if seq else "Ok"
+                    if failing is None and g is not None and g[0] == seq:
+                        nm = "Ok"
+                    bad.setdefault(nm, f"colours present {present}, failing emit {failing}: emits {g[0] if g else None} result {g[1] if g else None}; expected {seq} {res}")
+            extra = [k for k in got if k[0] == present and k[1] is not None and k[1] >= len(want)]
+            if extra:
+                bad.setdefault("Ok", f"colours present {present}: more emits than effects + the present colours")
+        names = ["effects", "fg", "bg", "underline", "Ok"]
+        for i, nm in enumerate(names):
+            rep.check(nm not in bad and "*" not in bad, "order", body["path"], f"{i}:{nm}",
+                      f"{label} path: effects first, then fg, bg, underline when present, each error returned at once, Ok(()) at the end "
+                      f"({n_cases[label]} evaluated cases) {bad.get(nm, bad.get('*', ''))}"[:400], loc(body))
+    rep.count(sum(n_cases.values()))
+    rep.check(all(v >= 20 for v in n_cases.values()), "order", S, "fmt_to-and-write_to-agree", f"both paths emit effects, fg, bg, underline and nothing else ({n_cases})", "")
     # Display for Style / StyleDisplay
     d = facts.body("anstyle", "<anstyle::style::Style as core::fmt::Display>::fmt")
     rep.fn(d["path"])
-    e = ac.single_expr(d["hir"])
-    ok = False
-    if e.get("k") == "if" and "e" in e and hir.is_call(hir.simp(e["c"]), "core::fmt::Formatter::<'a>::alternate"):
-        t, el = ac.single_expr(e["t"]), ac.single_expr(e["e"])
-        ok = (t.get("k") == "call" and hir.is_call(hir.simp(t["args"][0]), S + "render_reset") and hir.is_local(t["args"][1], "f")
-              and hir.is_call(el, S + "fmt_to") and [hir.local_name(a) for a in el["args"]] == ["self", "f"])
+    ok = True
+    for alt in (True, False):
+        try:
+            ev = abseval.Evaluator(facts, "anstyle", {"core::fmt::Formatter::<'a>::alternate": ("bool", alt), S + "fmt_to": lambda a_: ("fmt_to",) + tuple(a_),
+                                                      S + "render_reset": lambda a_: ("reset-of", a_[0]),
+                                                      "<anstyle::color::NullFormatter as core::fmt::Display>::fmt": lambda a_: ("shown",) + tuple(a_),
+                                                      "*": lambda cal, a_, e_: ("shown",) + tuple(a_) if cal.endswith("core::fmt::Display>::fmt") else None})
+            env = abseval.Env()
+            env[d["params"][0]["name"]] = ("sym", "self")
+            env[d["params"][1]["name"]] = ("sym", "f")
+            try:
+                r = ev.ev(d["hir"], env)
+            except abseval.Return as rt:
+                r = rt.v
+            want = ("shown", ("reset-of", ("sym", "self")), ("sym", "f")) if alt else ("fmt_to", ("sym", "self"), ("sym", "f"))
+            ok = ok and r == want
+        except Unrecognised:
+            ok = False
     rep.check(ok, "order", d["path"], "alternate→reset-else→fmt_to", "", loc(d))
     sd = facts.body("anstyle", "<anstyle::style::StyleDisplay as core::fmt::Display>::fmt")
     e = ac.single_expr(sd["hir"])
